@@ -1357,6 +1357,7 @@ pub struct Outcome {
     pub nontrivial_c03: bool,
     pub body_executions: u64,
     pub lookups_checked: u64,
+    pub excluded_second_owner: u64,
 }
 
 /// What the early-cut-off reference model remembers about a cached node.
@@ -1400,16 +1401,15 @@ impl Drop for Held {
     }
 }
 
+#[derive(Default, Clone)]
 pub struct Options {
     /// known-finding exclusion switches (by construction); see `main.rs`
     pub exclude_absent_singleton_read: bool,
     pub exclude_equal_value_write: bool,
-}
-
-impl Default for Options {
-    fn default() -> Self {
-        Options { exclude_absent_singleton_read: false, exclude_equal_value_write: false }
-    }
+    /// open finding C03 `intern-ref-pointer-outlives-owner`: an `intern_ref` node keeps a raw pointer into the
+    /// value of whichever node interned an equal value first; with a second owner of equal rows
+    /// (`rows_b`) the collector can free the pointee. Excluded = the second owner never interns.
+    pub exclude_second_intern_owner: bool,
 }
 
 fn panic_message(e: Box<dyn std::any::Any + Send>) -> String {
@@ -1448,6 +1448,9 @@ struct Interp {
     // C02 non-trivial bookkeeping
     eq_write_after_change: BTreeSet<Src>,
     changed_since_start: bool,
+    reinterned: bool,
+    /// which producers (rows = false, rows_b = true) interned a row by reference
+    row_owners: BTreeMap<Row, BTreeSet<bool>>,
     out: Outcome,
 }
 
@@ -1710,6 +1713,15 @@ impl Interp {
                 }
             }
             for leaf in direct_leaves.iter() {
+                if let Node::InternRow(row) = leaf {
+                    let second = matches!(n, Node::RowRefB(_));
+                    self.row_owners.entry(*row).or_default().insert(second);
+                }
+                if self.cache.contains_key(leaf) && matches!(leaf, Node::InternRow(_)) {
+                    // an equal row interned again, possibly at a new address
+                    self.out.labels.insert("intern-ref-reinterned");
+                    self.reinterned = true;
+                }
                 if !self.cache.contains_key(leaf) {
                     let s = self.fresh();
                     self.cache.insert(
@@ -1829,6 +1841,8 @@ pub fn run_history(cap: usize, ops: &[Op], opts: &Options) -> Outcome {
         distinct_top_since_start: BTreeSet::new(),
         eq_write_after_change: BTreeSet::new(),
         changed_since_start: false,
+        reinterned: false,
+        row_owners: BTreeMap::new(),
         out: Outcome::default(),
     };
     HANDLE_KEYS.with(|m| m.borrow_mut().clear());
@@ -1884,6 +1898,11 @@ fn step_once(it: &mut Interp, step: usize, op: &Op, opts: &Options) -> Option<Fa
                 it.out.skipped_ops += 1;
                 return None;
             }
+            if opts.exclude_second_intern_owner && matches!(spec, CallSpec::RowRefB(_) | CallSpec::RowScoreB(_) | CallSpec::RowParamVia(_, true)) {
+                it.out.skipped_ops += 1;
+                it.out.excluded_second_owner += 1;
+                return None;
+            }
             if opts.exclude_absent_singleton_read && it.reads_absent_singleton(spec) {
                 it.out.skipped_ops += 1;
                 it.out.labels.insert("excluded:absent-source-read");
@@ -1925,7 +1944,10 @@ fn step_once(it: &mut Interp, step: usize, op: &Op, opts: &Options) -> Option<Fa
             for h in got.handles {
                 let (ph, node, exp, raw_ptr) = match h {
                     HandleOut::Int(h, key) => (PH::Int(h), key.node(), model_value(&it.st, &key.node()), false),
-                    HandleOut::Row(h, row) => (PH::Row(h), Node::InternRow(row), vec![row.name as i64, row.score as i64], true),
+                    HandleOut::Row(h, row) => {
+                        it.out.labels.insert("row-handle");
+                        (PH::Row(h), Node::InternRow(row), vec![row.name as i64, row.score as i64], true)
+                    }
                 };
                 it.handles.push(Handle { h: ph, node, from: from.clone(), expected: exp, writes_at_obtain: it.writes, live: true, raw_ptr });
             }
@@ -1974,11 +1996,33 @@ fn step_once(it: &mut Interp, step: usize, op: &Op, opts: &Options) -> Option<Fa
             };
             if it.gc_count > 0 {
                 it.out.labels.insert("lookup-after-gc");
+                if h.raw_ptr {
+                    it.out.labels.insert("row-lookup-after-gc");
+                    if it.reinterned {
+                        it.out.labels.insert("row-lookup-after-gc-and-reintern");
+                    }
+                    if let Node::InternRow(row) = &h.node {
+                        if it.row_owners.get(row).map(|o| o.len() > 1).unwrap_or(false) {
+                            it.out.labels.insert("row-lookup-after-gc-two-owners");
+                        }
+                    }
+                }
             }
             if got != h.expected {
+                // root cause refinement: a pointer-kind handle whose row was interned by reference
+                // from two different owners, read after a collection
+                let two_owners = match &h.node {
+                    Node::InternRow(row) => it.row_owners.get(row).map(|o| o.len() > 1).unwrap_or(false),
+                    _ => false,
+                };
+                let signature = if h.raw_ptr && it.gc_count > 0 && two_owners {
+                    "intern-ref-pointer-outlives-owner"
+                } else {
+                    "handle-reads-other-value"
+                };
                 return Some(Failure {
                     class: "C03",
-                    signature: "handle-reads-other-value".into(),
+                    signature: signature.into(),
                     message: format!("handle to {:?} (obtained from {:?}) reads {:?}, its original value is {:?}", h.node, h.from, got, h.expected),
                     step,
                 });
@@ -2051,7 +2095,7 @@ fn step_once(it: &mut Interp, step: usize, op: &Op, opts: &Options) -> Option<Fa
             it.out.executed_ops += 1;
             let distinct_pending: BTreeSet<&Node> = it.pending_top.iter().collect();
             let has_retain = it.retained.iter().any(|h| h.0.is_some()) || !it.permanent.is_empty();
-            if distinct_pending.len() + it.lru.len() > it.cap || has_retain {
+            if distinct_pending.len() + it.lru.len() > it.cap || has_retain || it.reinterned {
                 it.out.nontrivial_c03 = true;
             }
             it.db.run_garbage_collection();
